@@ -191,7 +191,12 @@ impl Stanza {
                 let node = mat
                     .nodes_for_capture_index(self.full_match_stanza_capture_index as u32)
                     .next()
-                    .expect("missing full capture");
+                    .ok_or_else(|| {
+                        ExecutionError::UndefinedCapture(format!(
+                            "for the full match of the stanza at {}",
+                            self.range.start
+                        ))
+                    })?;
                 StatementContext::new(&statement, &self, &node)
             };
             let mut exec = ExecutionContext {
